@@ -58,4 +58,12 @@ REGISTRY = {
         "Random emission-style circuits with wrappers / identities / resets, benchmark circuits and solver outputs; all 8 "
         "metric classes x default / affine penalty + register_depth; InputUnchanged.",
         "", "DESIGN.md 6/C18"),
+    "C04": (
+        "TLA+ model of the six mutation moves as guarded wire edits, model-checked over all move sequences; the real move "
+        "functions applied to real circuits and trace-validated by TLC after every move",
+        "MC_Moves: all emission / measurement assignments x all move sequences to depth 3 (quick) / 4 (thorough) on 2e+2p: "
+        "EmissionShape, acyclic, fixed ops stay. Real histories of all six moves on evolutionary initial circuits and "
+        "time-reversed solver outputs: valid circuit, EmissionShape, FixedPreserved, CandidatesSound (selector pairs "
+        "legal and acyclic), MoveEffect.",
+        "", "DESIGN.md 6/C04"),
 }
